@@ -108,6 +108,7 @@ func c09Hostile(t *rapid.T, in *Intent) {
 }
 
 type c09TmplOpt struct {
+	MixinParam bool // endpoint parameters typed by mixed-in types
 	Mixin, Collector, Views, Nested, Names bool
 	MinChain                               int // minimal mixin chain depth (0 = 1)
 	// avoid the shapes of known findings (decided by the caller through knownActive)
@@ -216,6 +217,11 @@ func c09GenTmpl(t *rapid.T, o c09TmplOpt) c09Tmpl {
 			if i == 0 {
 				w.l(1, "Use "+c09q(pick(t, c09ValPool, "uselong"))+":")
 				w.l(2, "...")
+				if o.MixinParam && rapid.Bool().Draw(t, "mixinparam") {
+					// a parameter typed by a type (and a field of a type) that only the mixin brings in
+					cl("tmpl_mixin_param_typed_by_mixed_in_type")
+					w.l(1, "UseP (p <: T1.id, q <: T1): ...")
+				}
 			}
 			w.l(0, "")
 		}
